@@ -281,7 +281,54 @@ func deriveObs(es []*entry, salt []byte) (string, *keyset.Handle) {
 	return shape(dh, want), dh
 }
 
+// runHistory: several DeriveKeyset calls on ONE deriver, the salts passed
+// through ONE reused buffer that is overwritten in place between the calls
+// (case line C17H|entries|salt;salt;...).  Each result must be the function of
+// (keyset, salt) that a single call computes.
+func runHistory(in string) string {
+	f := strings.Split(in, "|")
+	es, _, err := parse("C17|" + f[1] + "|-")
+	if err != nil {
+		return "BADCASE " + err.Error()
+	}
+	h, err := deriverHandle(es)
+	if err != nil {
+		return "BADCASE " + err.Error()
+	}
+	want := map[uint32]key.Parameters{}
+	for _, e := range es {
+		want[e.id] = e.derivedParams
+	}
+	var out []string
+	t := &hx.Tape{}
+	hx.WithTape(t, func() {
+		kd, err := keyderivation.New(h)
+		if err != nil {
+			out = append(out, "new-err")
+			return
+		}
+		buf := make([]byte, 1024)
+		for _, sh := range strings.Split(f[2], ";") {
+			salt := hx.UH(sh)
+			n := copy(buf, salt)
+			dh, err := kd.DeriveKeyset(buf[:n])
+			if err != nil {
+				out = append(out, "derive-err")
+				continue
+			}
+			out = append(out, shape(dh, want))
+		}
+	})
+	if len(t.Log) != 0 {
+		return fmt.Sprintf("DREW-RANDOMNESS %d reads", len(t.Log))
+	}
+	return strings.Join(out, " ## ")
+}
+
 func run(in string) string {
+	if strings.HasPrefix(in, "C17H|") {
+		return runHistory(in)
+	}
 	es, salt, err := parse(in)
 	if err != nil {
 		return "BADCASE " + err.Error()
@@ -474,6 +521,28 @@ func usable(k key.Key) string {
 }
 
 func check(in, obs string) string {
+	if strings.HasPrefix(in, "C17H|") {
+		// each element of a history must equal what a fresh deriver computes for that salt
+		f := strings.Split(in, "|")
+		parts := strings.Split(obs, " ## ")
+		salts := strings.Split(f[2], ";")
+		if strings.HasPrefix(obs, "PANIC") || strings.HasPrefix(obs, "BADCASE") || strings.HasPrefix(obs, "DREW-RANDOMNESS") {
+			return obs
+		}
+		if len(parts) == 1 && parts[0] == "new-err" {
+			return ""
+		}
+		if len(parts) != len(salts) {
+			return "history length mismatch"
+		}
+		for i, sh := range salts {
+			single := run("C17|" + f[1] + "|" + sh)
+			if single != parts[i] {
+				return fmt.Sprintf("call %d of a history on one deriver (salt passed in a reused buffer) differs from a single derivation with that salt", i)
+			}
+		}
+		return ""
+	}
 	if strings.HasPrefix(obs, "PANIC") || strings.HasPrefix(obs, "BADCASE") || strings.HasPrefix(obs, "DREW-RANDOMNESS") {
 		return obs
 	}
@@ -584,6 +653,10 @@ func check(in, obs string) string {
 }
 
 func class(in, obs string) string {
+	if strings.HasPrefix(in, "C17H|") {
+		f := strings.Split(in, "|")
+		return fmt.Sprintf("history:%d:%d", strings.Count(f[1], ";")+1, strings.Count(f[2], ";")+1)
+	}
 	if strings.HasPrefix(obs, "PANIC") || strings.HasPrefix(obs, "BADCASE") {
 		return ""
 	}
